@@ -34,6 +34,10 @@ func init() {
 			// memo of synthesised names a rule handle relies on (hash of a list of alternatives independent of their order)
 			{Units: `parser/spec\.Parse\$1$`, Names: `#post\[(c1[2-4]-|directive-appends-one|others-keep-levels)`},
 			{Units: `parser/spec\.SymbolTable\.(AddPrecedence|Precedences)$`},
+			// a rule handle contributes every production of its rule, wherever the directive stands (shared with C12)
+			{Units: `parser/spec\.Parse\$1$`, Names: `#post\[(c1[5-9]-|c2[01]-)`},
+			{Units: `parser/spec\.Parse\$1$`, Names: `#(inv-init|inv-pres|inv-frame)\[[678],`},
+			{Units: `parser/spec\.SymbolTable\.AddProduction$`},
 			{Units: `parser/spec\.(hashStrings|eqStrings|Strings\.Contains)$`},
 			{Units: `generate/golang\.generator\.generateParser$`, Kinds: nonSafety},
 			{Units: `generate/golang\.Generate$`, Kinds: nonSafety},
